@@ -286,7 +286,7 @@ METRIC_KEYS = ["pops", "iters", "propagations", "radius_cap_hits", "layer_cap_hi
                "max_delta", "cache_hits", "cache_misses", "t1_frontier_evicted", "t1_dedup_hits", "t1_visited_evicted"]
 
 
-def call_real(case: dict, active: List[str], trace: bool, store=None) -> dict:
+def call_real(case: dict, active: List[str], trace: bool, store=None, keep_cache: bool = False) -> dict:
     """One real `t1_propagate` call; on a fresh store built from `case`, or on the given (history) store."""
     from clematis.engine.stages import t1 as t1mod
     rec = Rec()
@@ -297,7 +297,8 @@ def call_real(case: dict, active: List[str], trace: bool, store=None) -> dict:
     ctx = build_ctx(case)
     cfg_before = repr(ctx.cfg)
     state = {"store": store, "active_graphs": list(active)}
-    reset_cache(t1mod)
+    if not keep_cache:
+        reset_cache(t1mod)
     saved, ok = ({}, False)
     if trace:
         saved, ok = install_shims(t1mod, rec)
@@ -305,7 +306,8 @@ def call_real(case: dict, active: List[str], trace: bool, store=None) -> dict:
         res = t1mod.t1_propagate(ctx, state, case["text"])
     finally:
         remove_shims(t1mod, saved)
-        reset_cache(t1mod)
+        if not keep_cache:
+            reset_cache(t1mod)
         store._rec = None
     after = snapshot_store(store)
     created = [g for g in after if g not in before]
@@ -650,7 +652,7 @@ def eff_queue(case) -> int:
 
 class T1Comp(Component):
     name = "t1"
-    budget = {"quick": 4000, "thorough": 40000, "search": 10000}
+    budget = {"quick": 3200, "thorough": 40000, "search": 10000}
     decay_present = True
 
     def gen(self, rng: random.Random, i: int) -> dict:
@@ -1258,7 +1260,216 @@ def snapshot_contents(store) -> Any:
             for gid, g in store._graphs.items()}
 
 
-COMPONENTS = [T1Comp(), T1NoDecay(), T1Boundary(), T1Malformed(), T1History()]
+# --------------------------------------------------------------------------
+# warm-cache history: repeated / varied calls in one process with the T1 result cache ON, no store edits
+# --------------------------------------------------------------------------
+
+CORE_COUNTERS = ["pops", "iters", "propagations", "radius_cap_hits", "layer_cap_hits", "node_budget_hits"]
+
+
+class T1CacheHistory(T1Comp):
+    """2-4 `t1_propagate` calls in one process on ONE store with the (default-on) legacy T1 result cache ENABLED and
+    no store edits: same text, other texts, other subsets / orders / repetitions of the active graphs.  Every call
+    must equal (a) the model on the store's contents and (b) the same call on a cold cache — deltas (per-graph
+    concatenation, each touched node once per graph) and the work counters; cache diagnostics (`cache_hits`,
+    `cache_misses`, `cache_used`, `max_delta` of a hit, perf eviction counters) are not compared."""
+    name = "t1_warmcache"
+    budget = {"quick": 350, "thorough": 4000, "search": 1200}
+
+    def gen(self, rng: random.Random, i: int) -> dict:
+        words = rng.sample(WORDS, rng.choice([2, 3]))
+        ng = rng.choice([2, 2, 2, 3, 1])
+        graphs = [gen_graph(rng, f"g{j}", words) for j in range(ng)]
+        # make sure that most graphs own a keyword of the text
+        text_words = []
+        for g in graphs:
+            if rng.random() < 0.9 and g["nodes"]:
+                n = rng.choice(g["nodes"])
+                if not n.get("label"):
+                    n["label"] = rng.choice(words)
+                text_words.append(n["label"])
+        base = gen_case(rng, i, rng.random() < 0.8)
+        t = base["t1"]
+        if rng.random() < 0.5:
+            t.pop("cache", None)           # default: enabled
+        else:
+            t["cache"] = {"enabled": True}
+        if rng.random() < 0.7:
+            for k in ("radius_cap", "iter_cap", "iter_cap_layers", "relax_cap"):
+                t.pop(k, None)
+            t["queue_budget"] = rng.choice([20, 50, 100])
+        case: Dict[str, Any] = {"text": " ".join(text_words) or gen_text(rng, words, graphs), "graphs": graphs,
+                                "active": [g["gid"] for g in graphs], "t1": t, "shape": base["shape"]}
+        if "perf" in base and rng.random() < 0.5:
+            perf = base["perf"]
+            perf.pop("parallel", None)
+            (perf.get("t1") or {}).pop("cache", None)
+            case["perf"] = perf
+        if rng.random() < 0.1:
+            rng.shuffle(case["active"])
+        gids = [g["gid"] for g in graphs]
+        steps = []
+        for _ in range(rng.choice([1, 2, 2, 3])):
+            r = rng.random()
+            text = case["text"] if r < 0.6 else (gen_text(rng, words, graphs) if r < 0.85 else case["text"].upper())
+            r2 = rng.random()
+            if r2 < 0.5:
+                active = list(case["active"])
+            elif r2 < 0.7:
+                active = [gids[0]]
+            elif r2 < 0.85:
+                active = list(reversed(case["active"]))
+            else:
+                active = [rng.choice(gids) for _ in range(rng.choice([1, 2, 3]))]
+            steps.append({"text": text, "active": active})
+        case["steps"] = steps
+        return case
+
+    def call_cases(self, case: dict) -> List[dict]:
+        base = {k: v for k, v in case.items() if k != "steps"}
+        return [base] + [dict(base, text=st["text"], active=st["active"]) for st in case.get("steps", [])]
+
+    @staticmethod
+    def _core(out: dict) -> dict:
+        return {"deltas": out["deltas"], "counters": {k: out["metrics"][k] for k in CORE_COUNTERS}}
+
+    def impl(self, case: dict) -> Any:
+        from clematis.engine.stages import t1 as t1mod
+        calls = self.call_cases(case)
+        store = build_store(case, None)
+        warm = []
+        reset_cache(t1mod)
+        try:
+            for ck in calls:
+                try:
+                    warm.append(call_real(ck, ck["active"], False, store=store, keep_cache=True))
+                except Exception as e:
+                    warm.append({"raised_exc": type(e).__name__, "msg": str(e)[:200]})
+        finally:
+            reset_cache(t1mod)
+        outs = []
+        for ck, w in zip(calls, warm):
+            rec: Dict[str, Any] = {"warm": w}
+            try:
+                rec["cold"] = call_real(ck, ck["active"], False)
+            except Exception as e:
+                rec["cold"] = {"raised_exc": type(e).__name__, "msg": str(e)[:200]}
+            # per-graph cold runs: the expected concatenation
+            per = []
+            for a in ck["active"]:
+                try:
+                    per.append(call_real(ck, [a], False)["deltas"])
+                except Exception as e:
+                    per.append(None)
+            rec["per_graph"] = per
+            outs.append(rec)
+        return {"calls": outs}
+
+    def request(self, case: dict) -> dict:
+        return {"c": "t1.batch", "reqs": [model_request(ck, ck["active"]) for ck in self.call_cases(case)]}
+
+    def compare(self, case, impl_out, model_out) -> Optional[str]:
+        if isinstance(model_out, dict) and "__model_err__" in model_out:
+            return f"model error {model_out['__model_err__']}"
+        if isinstance(impl_out, dict) and "__raised__" in impl_out:
+            return f"harness/impl raised {impl_out['__raised__']}: {impl_out.get('msg')}"
+        from harness.core import _canon, first_diff
+        for k, (rec, mo) in enumerate(zip(impl_out["calls"], model_out)):
+            w = rec["warm"]
+            if "raised_exc" in w:
+                return f"call {k}: impl raised {w['raised_exc']}: {w.get('msg')}"
+            if "raised" in mo:
+                return f"call {k}: model raised"
+            a = _canon(self._core(w))
+            b = _canon({"deltas": [d[1] for d in mo["deltas"]], "counters": {x: mo["metrics"][x] for x in CORE_COUNTERS}})
+            if a != b:
+                return f"call {k} (warm cache, after {k} earlier call(s)): " + first_diff(a, b)
+        return None
+
+    def monitor_requests(self, case, impl_out) -> List[Tuple[str, dict]]:
+        rq: List[Tuple[str, dict]] = []
+        cj_cache = {}
+        for ck, rec in zip(self.call_cases(case), impl_out["calls"]):
+            w = rec["warm"]
+            if "raised_exc" in w or len(ck["active"]) != 1:
+                continue
+            m = w["metrics"]
+            rq.append(("budget", {"c": "t1.budget", "cfg": cfg_json(ck, eps_bits()), "pops": m["pops"],
+                                  "iters": m["iters"], "props": m["propagations"]}))
+        return rq
+
+    def monitors(self, case, impl_out):
+        res = []
+        for k, (ck, rec) in enumerate(zip(self.call_cases(case), impl_out["calls"])):
+            w, c = rec["warm"], rec["cold"]
+            if "raised_exc" in w:
+                res.append(("completes", False, f"call {k}: t1_propagate raised {w['raised_exc']}: {w.get('msg')}"))
+                continue
+            res.append(("purity", bool(w["pure"]), f"call {k}: store/config/state changed by t1_propagate"))
+            res.append(("delta_shape", bool(w["ops_ok"]), f"call {k}: a delta is not {{'op':'upsert_node','id':…}}"))
+            if "raised_exc" not in c:
+                res.append(("warm_equals_cold", self._core(w) == self._core(c),
+                            f"call {k} (text {ck['text']!r}, active {ck['active']}) after {k} earlier call(s) in the same process "
+                            f"differs from the same call on a cold T1 cache: deltas {_ids(w['deltas'])} vs {_ids(c['deltas'])}; "
+                            f"counters {self._core(w)['counters']} vs {self._core(c)['counters']}"))
+            if all(p is not None for p in rec["per_graph"]):
+                cat = [d for p in rec["per_graph"] for d in p]
+                res.append(("deltas_are_per_graph_concat", w["deltas"] == cat,
+                            f"call {k}: deltas {_ids(w['deltas'])} are not the per-graph results in active order "
+                            f"(each touched node once per graph): expected {_ids(cat)}"))
+                for a, p in zip(ck["active"], rec["per_graph"]):
+                    res.append(("ids_strictly_ascending", all(p[i] < p[i + 1] for i in range(len(p) - 1)),
+                                f"call {k}: graph {a} deltas not strictly ascending: {_ids(p)}"))
+        return res
+
+    def tags(self, case, impl_out):
+        t = set()
+        calls = self.call_cases(case)
+        for k, (ck, rec) in enumerate(zip(calls, impl_out["calls"])):
+            w = rec["warm"]
+            if "raised_exc" in w:
+                t.add("raised:" + w["raised_exc"])
+                continue
+            m = w["metrics"]
+            if m.get("cache_hits"):
+                t.add("cache_hit")
+            if k > 0 and m.get("cache_hits") and m.get("cache_misses"):
+                t.add("hit_and_miss_in_one_call")
+            if m["propagations"] > 0:
+                t.add("relax")
+            seeded = sum(1 for p in rec["per_graph"] if p)
+            if seeded >= 2:
+                t.add("two_or_more_graphs_with_deltas")
+            if k > 0 and ck["active"] != calls[0]["active"]:
+                t.add("active_varied")
+            if k > 0 and ck["text"] != calls[0]["text"]:
+                t.add("text_varied")
+        t.add(f"calls:{len(calls)}")
+        return sorted(t) or ["default"]
+
+    def shrink(self, case):
+        steps = case.get("steps", [])
+        for i in range(len(steps)):
+            yield dict(case, steps=steps[:i] + steps[i + 1:])
+        for gi, g in enumerate(case["graphs"]):
+            for ei in range(len(g["edges"])):
+                g2 = dict(g, edges=g["edges"][:ei] + g["edges"][ei + 1:])
+                yield dict(case, graphs=case["graphs"][:gi] + [g2] + case["graphs"][gi + 1:])
+            for ni in range(len(g["nodes"])):
+                g2 = dict(g, nodes=g["nodes"][:ni] + g["nodes"][ni + 1:])
+                yield dict(case, graphs=case["graphs"][:gi] + [g2] + case["graphs"][gi + 1:])
+        for k in ("perf", "slice"):
+            if k in case:
+                c2 = dict(case)
+                del c2[k]
+                yield c2
+
+
+def _ids(ds) -> List[str]:
+    return ["".join(chr(c) for c in d) if all(isinstance(c, int) for c in d) else str(d) for d in ds]
+
+
+COMPONENTS = [T1Comp(), T1NoDecay(), T1Boundary(), T1Malformed(), T1History(), T1CacheHistory()]
 
 
 def run(ctx: Ctx) -> None:
